@@ -570,7 +570,7 @@ func TestC07(t *testing.T) {
 		Level: "fault_enumeration",
 		Rule: "rapid draws a populated kitchen-sink database (setup history) and a transaction body of 1-6 operations the model accepts; the runner then ENUMERATES failure kind (caller error, duplicate unique value, empty value in non-nullable index, missing fk target, unusable key: empty bucket name / key too large, constraint veto on create / update / delete, veto raised by the parent store for a child-store create, veto raised by the child store for an update routed from the parent, veto on a cascaded delete, pre-commit action error) x every failure position 0..len(body) x entry point (Db.Update, nested Db.Update on a bound context, Db.Batch at the first and last position). " +
 			"For each: the rejected store call returns non-nil, the transaction returns non-nil, the full dump equals the baseline, and after a barrier transaction no entity listener of any style, commit action or tx-complete listener has run; finally the unmodified body must commit and match the model (the body is not vacuous). " +
-			"Since the first version the enumeration grew to 28 failure kinds: also a pre-commit action queued before the transaction is opened, unstorable values nested below a list in a SetMap document or in the tags of a patch, a missing link target in a link set persisted with the entity (through either store), a reference to a missing target that equals the referrer's own id, vetoes on a bulk delete by filter (plain and of the not-found type), a cascaded-delete veto through an entity with child data. " +
+			"Since the first version the enumeration grew to 33 failure kinds and five entry points (Db.Update, nested Db.Update, Db.Batch, two conventions of a migration step): also a pre-commit action queued before the transaction is opened, unstorable values nested below a list in a SetMap document or in the tags of a patch, a missing link target in a link set persisted with the entity (through either store), a reference to a missing target that equals the referrer's own id, vetoes on a bulk delete by filter (plain and of the not-found type), a cascaded-delete veto through an entity with child data. " +
 			"evaluations counts bodies, sub_evaluations counts failing transactions executed; a body is non-trivial when it produced at least one failing transaction. Kind x position enumeration per body is exhaustive; bodies are sampled.",
 		Assumptions: []string{"a fresh MutateContext per top-level transaction", "storage errors are provoked with inputs bbolt refuses (empty bucket name, key > 32768 bytes); there is no fault-injection hook below bbolt"},
 		Gen:         genC07, Run: runC07,
